@@ -4,7 +4,7 @@
    unit_conversions.py on every run); the LP rows are those of Model/LP.v.
    Scope notes: numbers are exact rationals; the CSV on disk is a file-system observation audited on every
    captured round, not modelled. *)
-From Coq Require Import QArith Lqa List String Bool.
+From Coq Require Import QArith Lqa Lia List String Bool.
 From Allfed Require Import Base.StrUtil Gen.UnitTables Model.Units Model.LP Model.Report Proofs.Units Proofs.Report.
 Import ListNotations.
 Open Scope Q_scope.
@@ -71,14 +71,20 @@ Theorem c04_floor : forall i c a v e ii, lp_settings_ok i c -> Feasible2 i ToHum
 Proof. exact report_floor. Qed.
 Print Assumptions c04_floor.
 
-(* ... hence, v being the optimum of the first solve (no feasible point has a larger minimum: C02), the headline
-   is within 0.005 % < 0.01 % of it *)
+(* ... hence the headline is within 0.005 % < 0.01 % of the optimiser's own optimum v of the first solve
+   (first_optimum: no feasible point of the base LP has a larger objective value).  The upper bound is proved
+   from the LP itself: moving the objective variable to the minimum of consumed_kcals keeps every row satisfied. *)
+Theorem c04_headline_le_optimum : forall i c a v e ii, lp_settings_ok i c -> Feasible i ToHumans a ->
+  report (report_in i c a) = Ok (e, ii) -> first_optimum i v -> headline ii <= v.
+Proof. exact headline_le_optimum. Qed.
+Print Assumptions c04_headline_le_optimum.
+
 Theorem c04_within_tolerance : forall i c a v e ii, lp_settings_ok i c -> Feasible2 i ToHumans v a ->
-  report (report_in i c a) = Ok (e, ii) -> headline ii <= v ->
+  report (report_in i c a) = Ok (e, ii) -> first_optimum i v ->
   0 <= v - headline ii /\ v - headline ii <= (5 # 100000) * v /\ (0 < v -> (v - headline ii) / v < 1 # 10000).
 Proof.
-  intros i c a v e ii H F R U. destruct (report_floor i c a v e ii H F R) as [L _].
-  exact (within_tolerance v (headline ii) L U).
+  intros i c a v e ii H F R O. destruct (report_floor i c a v e ii H F R) as [L _].
+  exact (within_tolerance v (headline ii) L (headline_le_optimum i c a v e ii H (proj1 F) R O)).
 Qed.
 Print Assumptions c04_within_tolerance.
 
@@ -98,6 +104,12 @@ Theorem c04_split_month : forall produced eaten k,
   (0 <= k -> 0 <= snd (split_month produced eaten k)).
 Proof. intros; split; [apply split_month_adds_up|apply split_month_nonneg]. Qed.
 Print Assumptions c04_split_month.
+
+(* ... so the Extractor's own run-time checks of the split (validate_sources_add_up,
+   validate_outdoor_growing_production) can never fire, whatever the inputs *)
+Theorem c04_split_checks_never_fire : forall x, extract x <> Rejected AssertRejected.
+Proof. exact extract_never_assert. Qed.
+Print Assumptions c04_split_checks_never_fire.
 
 (* (6) the breakdown kept on the interpreter (stored_food and outdoor_crops rounded to 3 decimals, the other seven
    unrounded) sums, month by month, to within 0.001 of the unrounded sum whose minimum is the headline; each
@@ -149,6 +161,17 @@ Proof.
   - intros s m. destruct s; cbn; try lra; destruct m as [|[|m]]; cbn; lra.
   - cbn. repeat constructor; unfold sat; cbn; lra.
   - cbn. repeat constructor; unfold sat; cbn; lra.
+Qed.
+
+Example c04_first_optimum_exists : first_optimum ex_lp 100.
+Proof.
+  intros a' F.
+  pose proof (objective_rows ex_lp a' F 0%nat ltac:(cbn; lia)) as O.
+  assert (NZ : ~ need ex_lp == 0) by (cbn; intro HE; lra).
+  pose proof (consumed_value ex_lp a' 0%nat NZ (feasible_consumed_rows ex_lp a' F 0%nat ltac:(cbn; lia))) as C.
+  cbn in C.
+  assert (E : 100 / 1 * (0 + 0 + 1 * 0 + 0 + 0 + 0 + 1 + 0 + 0) == 100) by reflexivity.
+  rewrite E in C. lra.
 Qed.
 
 Example c04_report_accepts :
